@@ -1,10 +1,12 @@
 package checks
 
 import (
+	"bytes"
 	"crypto/tls"
 	"fmt"
 	"os"
 	"reflect"
+	"runtime"
 	"sort"
 	"strings"
 	"time"
@@ -43,7 +45,13 @@ type cluster struct {
 	lifeAlive bool
 	seq       int // global event sequence (history timestamps)
 	execHeld  bool
-	t0        time.Time
+	// Contend[i]: the i-th acquisition of the command lock meets a busy lock (phantom holder, see contend)
+	Contend  []bool
+	nacq     int
+	advances int
+	// Ticks: clock advances offered as ordinary actions (the next one of the plan), interleaved with everything else
+	Ticks []time.Duration
+	t0    time.Time
 	// harnessTask names the tasks that belong to the harness (TLS client goroutines), not to the server.
 	harnessTask map[string]bool
 	// OnRecord observes the example store's record accesses (task name, point, key).
@@ -78,6 +86,10 @@ func newCluster(tape *sim.Tape, o *Outcome) *cluster {
 				s.Park("?", "yield:exec.lock", obj, free)
 				cl.execHeld = true
 				s.Count("exec_lock_acquisitions")
+				if cl.nacq < len(cl.Contend) && cl.Contend[cl.nacq] {
+					contend(obj, s)
+				}
+				cl.nacq++
 			}
 			return
 		case "exec.unlock":
@@ -137,6 +149,50 @@ func lockProbe(obj any) func() bool {
 		}
 	}
 	return nil
+}
+
+// contend makes the lock the calling goroutine is about to take contended: the caller takes it here as a phantom
+// holder (Go mutexes have no owner) and a watcher releases it as soon as the caller is blocked in its Lock call.
+// The code under test therefore runs its "lock is busy" path deterministically. Returns false when the object is
+// not a lock or is busy already.
+func contend(obj any, s *sim.Sim) bool {
+	var tl tryLocker
+	if l, ok := obj.(tryLocker); ok {
+		tl = l
+	} else {
+		rv := reflect.ValueOf(obj)
+		if rv.IsValid() && rv.Kind() == reflect.Pointer && !rv.IsNil() && rv.Elem().Kind() == reflect.Pointer && !rv.Elem().IsNil() {
+			if l, ok := rv.Elem().Interface().(tryLocker); ok {
+				tl = l
+			}
+		}
+	}
+	if tl == nil || !tl.TryLock() {
+		return false
+	}
+	gid := sim.Goid()
+	go func() {
+		marker := fmt.Sprintf("goroutine %d [", gid)
+		buf := make([]byte, 1<<20)
+		for i := 0; i < 20000; i++ {
+			n := runtime.Stack(buf, true)
+			if j := bytes.Index(buf[:n], []byte(marker)); j >= 0 {
+				line := buf[j:n]
+				if k := bytes.IndexByte(line, '\n'); k >= 0 {
+					line = line[:k]
+				}
+				if bytes.Contains(line, []byte("Mutex.Lock")) || bytes.Contains(line, []byte("semacquire")) {
+					s.Count("forced_lock_contention")
+					tl.Unlock()
+					return
+				}
+			}
+			runtime.Gosched()
+		}
+		s.Count("forced_lock_contention_not_observed")
+		tl.Unlock()
+	}()
+	return true
 }
 
 func taskNameFor(obj any) string {
@@ -278,6 +334,12 @@ type client struct {
 	NoDial   bool // dialing is driven by the check, not offered as an action
 	// DialAfter gates the dial action (nil = at once).
 	DialAfter func() bool
+	// KeepSending: the client goes on with its script although the server has ended its side of the stream.
+	KeepSending bool
+	// PauseBefore[i] > 0: the client stays silent for that long (simulated time) before it sends request i.
+	PauseBefore map[int]time.Duration
+	pauseUntil  time.Time
+	pausedFor   int
 	// S2CWindow > 0 bounds the bytes the server can have outstanding towards this client.
 	S2CWindow int
 	// NoRead: the client stops reading (with a finite window the server's writes block, then fail when it vanishes).
@@ -462,12 +524,61 @@ func (c *client) actions() []sim.Action {
 		acts = append(acts, sim.Action{Key: c.Name + " end", Do: c.endNow})
 		return acts
 	}
-	if c.sent < len(c.stream) && !c.SrvClosed {
+	if c.sent < len(c.stream) && (!c.SrvClosed || c.KeepSending) {
 		if !c.Lockstep || len(c.Vals) >= c.sentReqs() {
+			if n := c.sentReqs(); c.PauseBefore[n] > 0 && c.sent == c.startOf(n) {
+				// a pause in the script: starts when the request becomes due, ends when the simulated clock has moved on
+				if c.pausedFor != n+1 {
+					c.pausedFor = n + 1
+					c.pauseUntil = time.Now().Add(c.PauseBefore[n])
+					c.Cl.S.Logf(c.Name, "pauses %s before request %d", c.PauseBefore[n], n)
+				}
+				if time.Now().Before(c.pauseUntil) {
+					return acts
+				}
+			}
 			acts = append(acts, sim.Action{Key: c.Name + " send", Do: c.send})
 		}
 	}
 	return acts
+}
+
+func (c *client) startOf(n int) int {
+	if n == 0 {
+		return 0
+	}
+	return c.ends[n-1]
+}
+
+// nextWake: the earliest simulated time a parked task or a pausing client waits for.
+func (cl *cluster) nextWake() (time.Time, bool) {
+	best, ok := cl.S.NextWake()
+	for _, c := range cl.Clients {
+		if c.State != clNew && c.State != clEnded && !c.pauseUntil.IsZero() && time.Now().Before(c.pauseUntil) {
+			if !ok || c.pauseUntil.Before(best) {
+				best, ok = c.pauseUntil, true
+			}
+		}
+	}
+	return best, ok
+}
+
+// advanceClock jumps the simulated clock to the next moment somebody waits for (when nothing else is enabled).
+func (cl *cluster) advanceClock() bool {
+	t, ok := cl.nextWake()
+	if !ok {
+		return false
+	}
+	d := time.Until(t)
+	if d <= 0 {
+		return cl.advances < 1<<16 && func() bool { cl.advances++; return true }()
+	}
+	if cl.advances >= 1<<12 {
+		return false
+	}
+	cl.advances++
+	cl.S.Advance(d)
+	return true
 }
 
 func (c *client) deliver(n int) {
@@ -575,7 +686,17 @@ func (cl *cluster) run(budget int, inv func(), extra func() []sim.Action) bool {
 		if extra != nil {
 			acts = append(acts, extra()...)
 		}
+		if len(cl.Ticks) > 0 && len(acts) > 0 {
+			d := cl.Ticks[0]
+			acts = append(acts, sim.Action{Key: "tick", Do: func() {
+				cl.Ticks = cl.Ticks[1:]
+				cl.S.Advance(d)
+			}})
+		}
 		if len(acts) == 0 {
+			if cl.advanceClock() {
+				continue
+			}
 			return true
 		}
 		cl.choose(acts)
@@ -590,6 +711,9 @@ func (cl *cluster) settle(budget int) bool {
 		cl.collectAll()
 		acts := cl.actions()
 		if len(acts) == 0 {
+			if cl.advanceClock() {
+				continue
+			}
 			return true
 		}
 		cl.S.Logf("sched", "settle %s", acts[0].Key)
